@@ -21,13 +21,48 @@ func valSpecials(t int) []dyn.Val {
 		if ty.Bits == 32 {
 			big, tiny = math.MaxFloat32, math.SmallestNonzeroFloat32
 		}
-		return []dyn.Val{dyn.F(0), dyn.F(math.Copysign(0, -1)), dyn.F(1), dyn.F(-1), dyn.F(big), dyn.F(-big), dyn.F(tiny), dyn.F(-tiny), dyn.F(math.Inf(1)), dyn.F(math.Inf(-1)), dyn.F(0.75)}
+		return []dyn.Val{dyn.F(0), dyn.F(math.Copysign(0, -1)), dyn.F(1), dyn.F(-1), dyn.F(big), dyn.F(-big), dyn.F(tiny), dyn.F(-tiny), dyn.F(math.Inf(1)), dyn.F(math.Inf(-1)), dyn.F(0.75), dyn.F(math.NaN())}
 	case dyn.Signed:
 		lo := -int64(1) << uint(ty.Bits-1)
 		return []dyn.Val{dyn.I(0), dyn.I(-1), dyn.I(1), dyn.I(lo), dyn.I(-(lo + 1)), dyn.I(lo + 1), dyn.I(0x55 & -(lo + 1))}
 	}
 	hi := ^uint64(0) >> uint(64-ty.Bits)
 	return []dyn.Val{dyn.U(0), dyn.U(1), dyn.U(hi), dyn.U(hi - 1), dyn.U(hi/2 + 1), dyn.U(hi / 2), dyn.U(0x55 & hi)}
+}
+
+// valSame compares bit patterns; two NaNs are the same whatever their payload (a float32 element type
+// cannot carry the payload of a float64 NaN).
+func valSame(a, b dyn.Val) bool {
+	if a.K == dyn.Float && b.K == dyn.Float && math.IsNaN(a.Float()) && math.IsNaN(b.Float()) {
+		return true
+	}
+	return a == b
+}
+
+// valSetSample: every special value written with SetSample over a cell holding every other one (and
+// read back through the buffer and through a window of it).
+func valSetSample(t, C int) (fs []F) {
+	sp := valSpecials(t)
+	n := len(sp)
+	b := dyn.Alloc(t, al(C, n, n))
+	w := b.Slice(0, n)
+	for shift := 0; shift < n; shift++ {
+		for i := 0; i < C*n; i++ {
+			v := sp[(i+shift)%n]
+			if i%2 == 0 {
+				b.SetSample(i, v)
+			} else {
+				w.SetSample(i, v)
+			}
+			if g := b.Sample(i); !valSame(g, v) {
+				return append(fs, core.Failf("SetSample/value", "%s C=%d: SetSample(%d, %v) (bits %#x) over a cell holding %v: the buffer reads %v (bits %#x)", tn(t), C, i, v, v.B, sp[(i+shift+n-1)%n], g, g.B))
+			}
+			if g := w.Sample(i); !valSame(g, v) {
+				return append(fs, core.Failf("SetSample/value", "%s C=%d: after SetSample(%d, %v) a window over the same storage reads %v (bits %#x, want %#x)", tn(t), C, i, v, g, g.B, v.B))
+			}
+		}
+	}
+	return
 }
 
 // valAppendSample: a window of length 0 over storage pre-filled with the specials rotated by
@@ -54,11 +89,11 @@ func valAppendSample(t, C, shift int) (fs []F) {
 		for i, w := range cells {
 			g := root.Sample(i)
 			if i <= j {
-				if g2 := b.Sample(i); g2 != g {
+				if g2 := b.Sample(i); !valSame(g2, g) {
 					return append(fs, core.Failf("AppendSample/value", "%s C=%d: sample %d reads %v (bits %#x) through the buffer and %v (bits %#x) through its parent", tn(t), C, i, g2, g2.B, g, g.B))
 				}
 			}
-			if g != w {
+			if !valSame(g, w) {
 				what := "was changed"
 				if i == j {
 					what = fmt.Sprintf("does not hold the appended value (the cell held %v, bits %#x, before)", old, old.B)
@@ -107,15 +142,15 @@ func valAppend(t, C, shift int, grow bool) (fs []F) {
 		return append(fs, core.Failf("Append/value", "%s C=%d grow=%v: Len() = %d after appending %d samples to %d", tn(t), C, grow, dst.Len(), len(want), head))
 	}
 	for i := range before {
-		if g := dst.Sample(i); g != before[i] {
+		if g := dst.Sample(i); !valSame(g, before[i]) {
 			return append(fs, core.Failf("Append/value", "%s C=%d grow=%v: sample %d of the destination changed from %v (bits %#x) to %v (bits %#x)", tn(t), C, grow, i, before[i], before[i].B, g, g.B))
 		}
 	}
 	for i, w := range want {
-		if g := dst.Sample(head + i); g != w {
+		if g := dst.Sample(head + i); !valSame(g, w) {
 			return append(fs, core.Failf("Append/value", "%s C=%d grow=%v, storage pre-filled with the special values rotated by %d: appended sample %d reads %v (bits %#x), want %v (bits %#x)", tn(t), C, grow, shift, i, g, g.B, w, w.B))
 		}
-		if g := src.Sample(i); g != w {
+		if g := src.Sample(i); !valSame(g, w) {
 			return append(fs, core.Failf("Append/value", "%s C=%d grow=%v: the source changed at %d", tn(t), C, grow, i))
 		}
 	}
@@ -124,7 +159,7 @@ func valAppend(t, C, shift int, grow bool) (fs []F) {
 			if i >= C && i < C+len(want) {
 				w = want[i-C]
 			}
-			if g := root.Sample(i); g != w {
+			if g := root.Sample(i); !valSame(g, w) {
 				return append(fs, core.Failf("Append/value", "%s C=%d in place: storage cell %d reads %v (bits %#x), want %v (bits %#x)", tn(t), C, i, g, g.B, w, w.B))
 			}
 		}
